@@ -386,6 +386,8 @@ def gen_report(rng, mode="wild", **opts):
         alias_names(rng, rep)
     if opts.get("odd"):
         _oddify(rng, rep, opts)
+    if opts.get("odd_fields"):
+        _odd_fields(rng, rep)
     rep["_classes"] = sorted(tx.used)
     return rep
 
@@ -565,6 +567,61 @@ def _oddify(rng, rep, opts):
                 for e in st["entries"]:
                     if rng.random() < p_zero / 2:
                         e["t"] = 0
+
+
+RESULT_KINDS = ["session-setup", "session-teardown", "suite-setup", "suite-teardown", "test"]
+
+
+def iter_results_kinds(rep):
+    """(kind, result) for every result of the description, kind ∈ RESULT_KINDS"""
+    if rep.get("setup"):
+        yield "session-setup", rep["setup"]
+    for s in iter_suites(rep["suites"]):
+        if s["setup"]:
+            yield "suite-setup", s["setup"]
+        for t in s["tests"]:
+            yield "test", t["res"]
+        if s["teardown"]:
+            yield "suite-teardown", s["teardown"]
+    if rep.get("teardown"):
+        yield "session-teardown", rep["teardown"]
+
+
+def _odd_fields(rng, rep, p=0.12):
+    """opt `odd_fields`: 'impossible but representable' combinations of INDEPENDENT fields, on results of every kind — what a
+    snapshot taken while a result is being finalised shows (`_finalize_result` sets the end time first, the status afterwards),
+    or what a tool building reports can write: end time without status, status without end time, end before start, a step ended
+    before it started, an ended step inside an unended result, an ended suite holding an unended result."""
+    for kind, res in iter_results_kinds(rep):
+        r = rng.random()
+        if r < p and res["end"] is not None and res["status"] not in ("skipped", "disabled"):
+            res["status"] = None                                   # end time, no status (yet)
+        elif r < 2 * p and res["status"] is not None:
+            res["end"] = None                                      # status, no end time
+        elif r < 2.5 * p and res["end"] is not None and res["start"]:
+            res["end"] = max(1, res["start"] - rng.choice([1, 250, 60_000]))     # ended before it started
+        elif r < 3 * p and res["end"] is None and res["status"] is None and res["start"]:
+            res["end"] = res["start"] + rng.choice([0, 1, 5000])   # an unfinished result given an end time only
+        for st in res["steps"]:
+            if rng.random() < p / 3 and st["end"] is not None and st["start"]:
+                st["end"] = max(1, st["start"] - 1)
+            if rng.random() < p / 3:
+                st["entries"] = []
+
+
+def odd_field_features(rep):
+    """feature tags for the combinations `_odd_fields` produces, per result kind"""
+    f = set()
+    for kind, res in iter_results_kinds(rep):
+        if res["end"] is not None and res["status"] is None:
+            f.add("end-without-status:" + kind)
+        if res["end"] is None and res["status"] is not None:
+            f.add("status-without-end:" + kind)
+        if res["end"] is not None and res["start"] is not None and res["end"] < res["start"]:
+            f.add("end-before-start:" + kind)
+        if any(not st["entries"] for st in res["steps"]):
+            f.add("step-without-entries")
+    return sorted(f)
 
 
 def iter_suites(suites):
